@@ -24,7 +24,14 @@ RULE = (
     "distinct = distinct (builder, class, input shape, prior-state shape)."
 )
 
-TRUTHY = [1, True, "x", 2.5, [0], "OBJ", -1, (0,)]
+import decimal
+import fractions
+
+# (after the first eight: the special values of the numeric tower - all of them truthy - and what weight / capacity /
+# distance matrices hold: infinities, NaN, tiny and huge magnitudes, exact rationals and decimals, complex numbers)
+TRUTHY = [1, True, "x", 2.5, [0], "OBJ", -1, (0,),
+          float("inf"), float("-inf"), float("nan"), decimal.Decimal("Infinity"), decimal.Decimal("0.1"),
+          fractions.Fraction(1, 3), 5e-324, 1e308, 10 ** 30, -0.5, 1j, "0", "False", b"\x00"]
 FALSY = [0, None, "", [], 0.0, False, ()]
 CLASSES = ["DirectedEdge", "UnDirectedEdge", "DSub", "USub", "OtherLink", "TwoEndedLink", "RenamedEdge", "PosOnlyEdge", "MixEdge", "FalsyEdge"]
 
